@@ -46,7 +46,7 @@ def _delta(line):
 def count(prog, rep):
     """R17.1 / R17.2: Points::new arms the counter with major_length(line) = max(|dx|, |dy|) + 1 and the walker with
     line.start and error 0; next() emits exactly one walker step per unit of the counter and nothing at zero."""
-    P_ = Paths(prog, inline=lambda g: prog.is_new(g) or (g.name in ("new", "with_initial_error") and g.path.startswith(BR + "::")))
+    P_ = Paths(prog, inline=lambda g: prog.is_new(g) or (g.name in ("new", "with_initial_error") and g.path.startswith(BR + "::")) or g.path.endswith("line::Line::delta"))   # `line.delta()` is `end - start`
     nw = prog.method1(PTS, "new", None)
     fi = {f["name"]: i for i, f in enumerate(prog.adts[PTS]["variants"][0]["fields"])}
     line = P(1, "line")
@@ -163,7 +163,7 @@ def parameters(prog, rep):
     line = P(1, "line")
     d = _delta(line)
     ab = ("call", "*Point::abs", "_", (d,))
-    P_ = Paths(prog, inline=lambda g: prog.is_new(g) or (g.name == "new" and g.path.startswith(MM + "::")))
+    P_ = Paths(prog, inline=lambda g: prog.is_new(g) or (g.name == "new" and g.path.startswith(MM + "::")) or g.path.endswith("line::Line::delta"))
     bad = []
     seen = set()
     try:
